@@ -412,10 +412,16 @@ static String resolveLocation(const String& base, const String& loc)
 	String root = p < 0 ? base : base.substring(0, p);
 	String path = p < 0 ? String("/") : base.substring(p);
 	int e = 0;
-	while (path[e] != '\0' && path[e] != '?' && path[e] != '#')
+	while (path[e] != '\0' && path[e] != '#')
+		e++;
+	path = path.substring(0, e);
+	if (loc[0] == '#' || !loc.ok()) // the same document: path and query stay
+		return root + path + loc;
+	e = 0;
+	while (path[e] != '\0' && path[e] != '?')
 		e++;
 	path = path.substring(0, e); // the path of the request without its query
-	if (loc[0] == '?' || loc[0] == '#')
+	if (loc[0] == '?')
 		return root + path + loc;
 	e = 0;
 	while (loc[e] != '\0' && loc[e] != '?' && loc[e] != '#')
